@@ -97,6 +97,22 @@ def fam_jac_close_delays():
     return out
 
 
+def fam_jac_parallel_delays():
+    """two scalar nodes of different types; two parallel delayed connections (different delays) from one to the other: the
+    source is read through a buffer whose slots are assigned one by one"""
+    from ..spec import EdgeSpec
+    fp = FP()
+    li = families.op_leaky(fp)
+    li.vars['u'] = ('input', F(0))
+    o1 = families.op_two_inputs(fp)
+    o1.vars['u'] = ('input', F(0))
+    nodes = {'p0': NodeSpec(['li'], {}), 'p1': NodeSpec(['o1'], {})}
+    edges = [EdgeSpec('p0/li/x', 'p1/o1/u', fp(), delay=F(1, 2)), EdgeSpec('p0/li/x', 'p1/o1/u', fp(), delay=F(3, 4)),
+             EdgeSpec('p1/o1/x', 'p0/li/u', fp())]
+    return [("FJ:parallel-delays", ModelSpec('m', {'li': li, 'o1': o1}, nodes, edges,
+                                             note="parallel delayed connections between two scalar nodes"))]
+
+
 def jac_job(job):
     spec = job['spec']
     out = dict(violations=[], inconclusive=[], obligations=[], src='', jsrc='')
@@ -110,8 +126,9 @@ def jac_job(job):
         base = [F(2 * i + 1281, 64) for i in range(3)]
         skw['inputs'] = {inp: np.array([float(b) for b in base])}
     try:
-        c_run = tv.compile_template(build_python(spec), vectorize=False, step_size=float(DT), **skw)
-        c_jac = tv.compile_template(build_python(spec), vectorize=False, step_size=float(DT), kind='jac',
+        vec = bool(job.get('vectorize', False))       # (True only for models whose nodes all differ: every state stays scalar)
+        c_run = tv.compile_template(build_python(spec), vectorize=vec, step_size=float(DT), **skw)
+        c_jac = tv.compile_template(build_python(spec), vectorize=vec, step_size=float(DT), kind='jac',
                                     sparse=job.get('sparse', False), fname='jf', **skw)
     except tv.CompileError as e:
         out['compile_error'] = str(e)
@@ -358,6 +375,9 @@ def run(tier='quick', seed=0, only=None, verbose=False):
     for k, s in fam_jac_close_delays():
         jobs.append(dict(key=f"{k}|scipy", spec=s, solver='scipy'))
         jobs.append(dict(key=f"{k}|scipy|sparse", spec=s, solver='scipy', sparse=True))
+    for k, s in fam_jac_parallel_delays():
+        for vec in (True, False):
+            jobs.append(dict(key=f"{k}|scipy|vec={vec}", spec=s, solver='scipy', vectorize=vec))
     for pi_, (k, s) in enumerate(progs[:4 if tier == 'quick' else 40]):
         for solver in ('euler', 'heun', 'scipy'):
             jobs.append(dict(key=f"{k}|{solver}|input", spec=s, solver=solver, inputs=['q/o1/u', 'p/nl/r_in'][pi_ % 2]))
